@@ -1,5 +1,6 @@
 import Verif.Model.CssShorthand
 import Verif.Spec.CssShorthandSpec
+import Verif.Props.C04
 /-!
 # Lemmas about the `font` case (C04B)
 
@@ -179,5 +180,655 @@ theorem fillPre_fontPre : ∀ (pre : List Tok) (d : FontDen) (used used' : List 
                        · exact List.mem_cons_of_mem _ (hsub s hs)
                      · simp only [List.length_cons]; omega
                      · intro hw; exact absurd List.mem_cons_self hw)
+
+/-! ## the family part of `font` -/
+
+section Families
+open Verif.Spec.CssValue
+
+
+/-- family tokens the theorem covers: comma, identifier, or a quoted string without backslash whose content is not
+a keyword (K-C04-6) -/
+def famTokOk (t : Tok) : Bool :=
+  t.tt == .comma || t.tt == .ident ||
+  (t.tt == .string &&
+    (match t.data with
+     | q :: r => (q == '"' || q == '\'') && r.getLast? == some q && !r.dropLast.isEmpty &&
+        !r.dropLast.contains '\\' && !familyKeywordString (lower r.dropLast)
+     | [] => false))
+
+theorem strTok_of_ok (t : Tok) (h : famTokOk t = true) (hs : t.tt = .string) :
+    ∃ q body, (q = '"' ∨ q = '\'') ∧ body ≠ [] ∧ body.contains '\\' = false ∧
+      familyKeywordString (lower body) = false ∧ t = strTok q body t.args := by
+  rcases t with ⟨tt, data, args⟩
+  simp only [Tok.tt] at hs
+  subst hs
+  simp only [famTokOk, Tok.tt, Tok.data, show (TT.string == TT.comma) = false from rfl,
+    show (TT.string == TT.ident) = false from rfl, Bool.false_or, beq_self_eq_true, Bool.true_and] at h
+  cases data with
+  | nil => simp at h
+  | cons q r =>
+    simp only [Bool.and_eq_true, Bool.or_eq_true, beq_iff_eq, Bool.not_eq_true', List.isEmpty_eq_false_iff] at h
+    obtain ⟨⟨⟨⟨hq, hl⟩, hne⟩, hb⟩, hk⟩ := h
+    refine ⟨q, r.dropLast, hq, hne, hb, hk, ?_⟩
+    have : r = r.dropLast ++ [q] := by
+      have hr : r ≠ [] := by intro e; subst e; simp at hl
+      have h1 := List.dropLast_concat_getLast hr
+      have h2 : r.getLast hr = q := by
+        have := List.getLast?_eq_some_getLast hr
+        rw [this] at hl; exact Option.some.inj hl
+      rw [h2] at h1; exact h1.symm
+    simp only [strTok, Tok.args, List.cons_append]
+    rw [← this]
+
+
+/-- what a user agent reads for family token `t` after the `font-family` rewrite -/
+def famImg (t : Tok) : List Tok :=
+  match minifyFontFamilyTok t with
+  | some t' => asWritten t'
+  | none => [t]
+
+theorem splitCommas_ne_nil : ∀ l : List Tok, splitCommas l ≠ []
+  | [] => by simp [splitCommas]
+  | t :: r => by
+    have := splitCommas_ne_nil r
+    unfold splitCommas
+    split
+    · simp
+    · split <;> simp
+
+theorem splitCommas_append_noComma : ∀ (a l : List Tok), (∀ x ∈ a, (x.tt == TT.comma) = false) →
+    splitCommas (a ++ l) = (a ++ (splitCommas l).headD []) :: (splitCommas l).tail
+  | [], l, _ => by
+    have := splitCommas_ne_nil l
+    cases h : splitCommas l with
+    | nil => exact absurd h this
+    | cons x xs => simp [h]
+  | t :: a, l, h => by
+    have ht := h t List.mem_cons_self
+    have ih := splitCommas_append_noComma a l (fun x hx => h x (List.mem_cons_of_mem _ hx))
+    simp only [List.cons_append]
+    rw [splitCommas, ih]
+    simp [ht]
+
+theorem splitCommas_flatMap (g : Tok → List Tok)
+    (hc : ∀ t, (t.tt == TT.comma) = true → g t = [t])
+    (hn : ∀ t, (t.tt == TT.comma) = false → ∀ x ∈ g t, (x.tt == TT.comma) = false) :
+    ∀ l : List Tok, splitCommas (l.flatMap g) = (splitCommas l).map (fun item => item.flatMap g)
+  | [] => by simp [splitCommas]
+  | t :: r => by
+    have ih := splitCommas_flatMap g hc hn r
+    have hne := splitCommas_ne_nil r
+    simp only [List.flatMap_cons]
+    cases htc : (t.tt == TT.comma)
+    · rw [splitCommas_append_noComma _ _ (hn t htc), ih]
+      rw [splitCommas]
+      cases hs : splitCommas r with
+      | nil => exact absurd hs hne
+      | cons x xs => simp [htc]
+    · rw [hc t htc]
+      simp only [List.cons_append, List.nil_append]
+      rw [splitCommas, ih, splitCommas]
+      cases hs : splitCommas r with
+      | nil => exact absurd hs hne
+      | cons x xs => simp [htc]
+
+
+theorem famImg_nonString (t : Tok) (h : (t.tt == TT.string) = false) : famImg t = [t] := by
+  simp [famImg, minifyFontFamilyTok, h, asWritten]
+
+theorem asWritten_noComma (t : Tok) (h : (t.tt == TT.comma) = false) : ∀ x ∈ asWritten t, (x.tt == TT.comma) = false := by
+  intro x hx
+  unfold asWritten at hx
+  split at hx
+  · simp only [List.mem_map] at hx
+    obtain ⟨w, _, rfl⟩ := hx
+    rfl
+  · simp only [List.mem_singleton] at hx
+    subst hx; exact h
+
+theorem minify_tt (t t' : Tok) (h : minifyFontFamilyTok t = some t') : t'.tt = t.tt := by
+  unfold minifyFontFamilyTok at h
+  split at h
+  · rename_i hc
+    split at h
+    · simp at h
+    · simp only [Option.some.injEq] at h
+      subst h
+      simp only [Bool.and_eq_true, beq_iff_eq] at hc
+      rw [hc.1]; rfl
+  · simp only [Option.some.injEq] at h
+    subst h; rfl
+
+theorem famImg_noComma (t : Tok) (h : (t.tt == TT.comma) = false) : ∀ x ∈ famImg t, (x.tt == TT.comma) = false := by
+  intro x hx
+  unfold famImg at hx
+  split at hx
+  · rename_i t' heq
+    have := minify_tt t t' heq
+    exact asWritten_noComma t' (by rw [this]; exact h) x hx
+  · simp only [List.mem_singleton] at hx
+    subst hx; exact h
+
+theorem famImg_comma (t : Tok) (h : (t.tt == TT.comma) = true) : famImg t = [t] := by
+  have : (t.tt == TT.string) = false := by
+    have : t.tt = TT.comma := by simpa using h
+    rw [this]; rfl
+  exact famImg_nonString t this
+
+
+theorem flatMap_id_of (item : List Tok) (h : ∀ t ∈ item, famImg t = [t]) : item.flatMap famImg = item := by
+  induction item with
+  | nil => rfl
+  | cons t r ih =>
+    simp only [List.flatMap_cons, h t List.mem_cons_self]
+    rw [ih (fun x hx => h x (List.mem_cons_of_mem _ hx))]
+    rfl
+
+theorem item_ok (item : List Tok) (f : Family)
+    (hok : ∀ t ∈ item, famTokOk t = true ∧ (t.tt == TT.comma) = false)
+    (h : familyOf item = some f) : familyOf (item.flatMap famImg) = some f := by
+  match item, hok, h with
+  | [], _, h => simp [familyOf] at h
+  | [t], hok, h =>
+    obtain ⟨ho, hnc⟩ := hok t List.mem_cons_self
+    by_cases hs : (t.tt == TT.string) = true
+    · obtain ⟨q, body, hq, hne, hb, hk, ht⟩ := strTok_of_ok t ho (by simpa using hs)
+      obtain ⟨t', h1, h2⟩ := Verif.Props.C04.font_family_partial q body t.args hq hne hb hk
+      rw [← ht] at h1 h2
+      simp only [List.flatMap_cons, List.flatMap_nil, List.append_nil, famImg, h1]
+      rw [h2]; exact h
+    · have hs' : (t.tt == TT.string) = false := by simpa using hs
+      simp only [List.flatMap_cons, List.flatMap_nil, List.append_nil, famImg_nonString t hs']
+      exact h
+  | t1 :: t2 :: r, hok, h =>
+    have hall : (t1 :: t2 :: r).all (fun t => t.tt == .ident && !cssWideKeywords.contains (lower t.data)) = true := by
+      simp only [familyOf] at h
+      split at h
+      · simp at h
+      · split at h
+        · rename_i hh; exact hh
+        · simp at h
+    have hid : ∀ t ∈ t1 :: t2 :: r, famImg t = [t] := by
+      intro t ht
+      have := List.all_eq_true.mp hall t ht
+      simp only [Bool.and_eq_true, beq_iff_eq] at this
+      exact famImg_nonString t (by rw [this.1]; rfl)
+    rw [flatMap_id_of _ hid]; exact h
+
+
+theorem mapM_congr_some {α β : Type} (f g : α → Option β) : ∀ (l : List α) (ys : List β),
+    (∀ x ∈ l, ∀ y, f x = some y → g x = some y) → l.mapM f = some ys → l.mapM g = some ys
+  | [], ys, _, h => by simpa using h
+  | a :: l, ys, hc, h => by
+    simp only [List.mapM_cons, Option.bind_eq_bind] at h ⊢
+    cases hfa : f a with
+    | none => simp [hfa] at h
+    | some b =>
+      simp only [hfa, Option.bind_some] at h
+      cases hl : l.mapM f with
+      | none => simp [hl] at h
+      | some bs =>
+        simp only [hl, Option.bind_some] at h
+        have h1 := hc a List.mem_cons_self b hfa
+        have h2 := mapM_congr_some f g l bs (fun x hx => hc x (List.mem_cons_of_mem _ hx)) hl
+        simp [h1, h2]
+        simpa using h
+
+theorem mem_splitCommas : ∀ (l : List Tok) (item : List Tok), item ∈ splitCommas l →
+    ∀ t ∈ item, t ∈ l ∧ (t.tt == TT.comma) = false
+  | [], item, hi, t, ht => by
+    simp only [splitCommas, List.mem_singleton] at hi
+    subst hi; simp at ht
+  | a :: l, item, hi, t, ht => by
+    have hne := splitCommas_ne_nil l
+    rw [splitCommas] at hi
+    cases hs : splitCommas l with
+    | nil => exact absurd hs hne
+    | cons x xs =>
+      simp only [hs] at hi
+      have ihx := mem_splitCommas l
+      by_cases hc : (a.tt == TT.comma) = true
+      · simp only [hc, if_true, List.mem_cons] at hi
+        rcases hi with rfl | hi
+        · simp at ht
+        · have := ihx item (by rw [hs]; exact List.mem_cons.mpr hi) t ht
+          exact ⟨List.mem_cons_of_mem _ this.1, this.2⟩
+      · have hc' : (a.tt == TT.comma) = false := by simpa using hc
+        simp only [hc', Bool.false_eq_true, if_false, List.mem_cons] at hi
+        rcases hi with rfl | hi
+        · rcases List.mem_cons.mp ht with rfl | ht'
+          · exact ⟨List.mem_cons_self, hc'⟩
+          · have := ihx x (by rw [hs]; exact List.mem_cons_self) t ht'
+            exact ⟨List.mem_cons_of_mem _ this.1, this.2⟩
+        · have := ihx item (by rw [hs]; exact List.mem_cons_of_mem _ hi) t ht
+          exact ⟨List.mem_cons_of_mem _ this.1, this.2⟩
+
+theorem families_ok (fam : List Tok) (fs : List Family) (hok : ∀ t ∈ fam, famTokOk t = true)
+    (h : fontFamilies fam = some fs) : fontFamilies (fam.flatMap famImg) = some fs := by
+  unfold fontFamilies at h ⊢
+  rw [splitCommas_flatMap famImg famImg_comma famImg_noComma, List.mapM_map]
+  refine mapM_congr_some familyOf _ (splitCommas fam) fs ?_ h
+  intro item hi f hf
+  exact item_ok item f (fun t ht => by
+    have := mem_splitCommas fam item hi t ht
+    exact ⟨hok t this.1, this.2⟩) hf
+
+theorem flatMap_asWritten : ∀ (fam fam0 : List Tok), minifyFontFamily fam = some fam0 →
+    fam0.flatMap asWritten = fam.flatMap famImg
+  | [], fam0, h => by
+    simp [minifyFontFamily] at h; subst h; rfl
+  | t :: r, fam0, h => by
+    simp only [minifyFontFamily, List.mapM_cons, Option.bind_eq_bind] at h
+    cases ht : minifyFontFamilyTok t with
+    | none => simp [ht] at h
+    | some t' =>
+      simp only [ht, Option.bind_some] at h
+      cases hr : r.mapM minifyFontFamilyTok with
+      | none => simp [hr] at h
+      | some r' =>
+        simp only [hr, Option.bind_some] at h
+        have : fam0 = t' :: r' := by simpa using h.symm
+        subst this
+        have ih := flatMap_asWritten r r' hr
+        simp only [List.flatMap_cons, ih, famImg, ht]
+
+end Families
+
+/-! ## `font`: the whole value -/
+
+section FontWhole
+open Verif.Spec.CssValue
+def pSlot (t : Tok) : Bool := (preSlot t).isSome
+
+theorem takeWhile_pre (p : Tok → Bool) (a : List Tok) (x : Tok) (b : List Tok) (ha : ∀ t ∈ a, p t = true) (hx : p x = false) :
+    (a ++ x :: b).takeWhile p = a ∧ (a ++ x :: b).dropWhile p = x :: b := by
+  induction a with
+  | nil => simp [hx]
+  | cons t r ih =>
+    have ht := ha t List.mem_cons_self
+    have := ih (fun y hy => ha y (List.mem_cons_of_mem _ hy))
+    simp [ht, this]
+
+theorem preSlot_tt (t : Tok) (h : pSlot t = true) : t.tt = .ident ∨ t.tt = .number := by
+  rcases t with ⟨tt, d, a⟩
+  cases tt <;> simp_all [pSlot, preSlot, Tok.tt]
+
+theorem fontPreTok_pSlot (t t' : Tok) (h : pSlot t = true) (h' : fontPreTok t = some t') : pSlot t' = true := by
+  unfold fontPreTok at h'
+  split at h'
+  · simp at h'
+  · split at h'
+    · simp only [Option.some.injEq] at h'
+      subst h'
+      have := (preSlot_num "700" t.args 700 n700 (by decide) (by decide)).1
+      have e : Verif.Model.Css.S "700" = "700".toList := rfl
+      rw [e]; simp only [pSlot, this, Option.isSome_some]
+    · split at h'
+      · simp at h'
+      · simp only [Option.some.injEq] at h'
+        subst h'; exact h
+
+theorem filterMap_pSlot (pre : List Tok) (h : ∀ t ∈ pre, pSlot t = true) :
+    ∀ t ∈ pre.filterMap fontPreTok, pSlot t = true := by
+  intro t ht
+  simp only [List.mem_filterMap] at ht
+  obtain ⟨a, ha, hat⟩ := ht
+  exact fontPreTok_pSlot a t (h a ha) hat
+
+theorem asWritten_nonString (t : Tok) (h : (t.tt == TT.string) = false) : asWritten t = [t] := by
+  simp [asWritten, h]
+
+theorem flatMap_asWritten_id (l : List Tok) (h : ∀ t ∈ l, (t.tt == TT.string) = false) : l.flatMap asWritten = l := by
+  induction l with
+  | nil => rfl
+  | cons t r ih =>
+    simp only [List.flatMap_cons, asWritten_nonString t (h t List.mem_cons_self)]
+    rw [ih (fun x hx => h x (List.mem_cons_of_mem _ hx))]; rfl
+
+/-- line-height and family part behind the size, as `fontDen` reads them -/
+def lhFam (rest : List Tok) : Option (Tok × List Tok) :=
+  match rest with
+  | sl :: l :: f => if Verif.Spec.CssValue.isSlash sl then (if isLineHeight l then some (compNorm l, f) else none) else some (normalTok, rest)
+  | _ => some (normalTok, rest)
+
+theorem fontDen_parts (pre : List Tok) (size : Tok) (rest : List Tok) (hp : ∀ t ∈ pre, pSlot t = true)
+    (hs : pSlot size = false) :
+    fontDen (pre ++ size :: rest) =
+      if !isFontSize size then none else
+      match lhFam rest with
+      | none => none
+      | some (lh, fam) =>
+        if fam.isEmpty then none else
+        match fontFamilies fam with
+        | none => none
+        | some fs => fillPre pre ⟨"normal".toList, "normal".toList, .abs 400, "normal".toList, compNorm size, lh, fs⟩ [] := by
+  obtain ⟨h1, h2⟩ := takeWhile_pre pSlot pre size rest hp hs
+  have e1 : (pre ++ size :: rest).takeWhile (fun t => (preSlot t).isSome) = pre := h1
+  have e2 : (pre ++ size :: rest).dropWhile (fun t => (preSlot t).isSome) = size :: rest := h2
+  unfold fontDen
+  simp only [e1, e2, lhFam]
+  rfl
+
+theorem drop_len_add (pre mid l : List Tok) : (pre ++ mid ++ l).drop (pre.length + mid.length) = l := by
+  rw [← List.length_append]; simp
+
+theorem take_len_add (pre mid l : List Tok) : (pre ++ mid ++ l).take (pre.length + mid.length) = pre ++ mid := by
+  rw [← List.length_append]; exact List.take_left' rfl
+
+theorem take_len (pre l : List Tok) : (pre ++ l).take pre.length = pre := by simp
+
+theorem drop_len (pre l : List Tok) : (pre ++ l).drop pre.length = l := by simp
+
+theorem getD_len_add (pre : List Tok) (mid : List Tok) (k : Nat) (d : Tok) :
+    (pre ++ mid).getD (pre.length + k) d = mid.getD k d := by
+  simp [List.getD_eq_getElem?_getD, List.getElem?_append_right]
+
+theorem minify_some : ∀ (fam : List Tok), (∀ t ∈ fam, famTokOk t = true) → ∃ fam0, minifyFontFamily fam = some fam0
+  | [], _ => ⟨[], rfl⟩
+  | t :: r, h => by
+    obtain ⟨r0, hr⟩ := minify_some r (fun x hx => h x (List.mem_cons_of_mem _ hx))
+    have ht := h t List.mem_cons_self
+    have : ∃ t', minifyFontFamilyTok t = some t' := by
+      by_cases hs : (t.tt == TT.string) = true
+      · obtain ⟨q, body, hq, hne, hb, hk, hte⟩ := strTok_of_ok t ht (by simpa using hs)
+        obtain ⟨t', h1, _⟩ := Verif.Props.C04.font_family_partial q body t.args hq hne hb hk
+        rw [← hte] at h1
+        exact ⟨t', h1⟩
+      · exact ⟨t, by simp [minifyFontFamilyTok, hs]⟩
+    obtain ⟨t', ht'⟩ := this
+    refine ⟨t' :: r0, ?_⟩
+    simp only [minifyFontFamily] at hr ⊢
+    simp [List.mapM_cons, ht', hr]
+
+theorem pSlot_noSlash (t : Tok) (h : pSlot t = true) : Verif.Model.Css.isSlash t = false := by
+  rcases preSlot_tt t h with h1 | h1 <;> simp [Verif.Model.Css.isSlash, h1]
+
+theorem pSlot_nonString (t : Tok) (h : pSlot t = true) : (t.tt == TT.string) = false := by
+  rcases preSlot_tt t h with h1 | h1 <;> simp [h1]
+
+theorem isFontSize_nonString (t : Tok) (h : isFontSize t = true) : (t.tt == TT.string) = false := by
+  rcases t with ⟨tt, d, a⟩
+  cases tt <;> simp_all [isFontSize, isLengthPct, numOf, Tok.tt]
+
+theorem isLineHeight_nonString (t : Tok) (h : isLineHeight t = true) : (t.tt == TT.string) = false := by
+  rcases t with ⟨tt, d, a⟩
+  cases tt <;> simp_all [isLineHeight, isKw, kwOf, isLengthPct, numOf, Tok.tt]
+
+/-- family tokens as read back are commas, identifiers or strings -/
+theorem famImg_kind (t : Tok) (h : famTokOk t = true) :
+    ∀ x ∈ famImg t, x.tt = .comma ∨ x.tt = .ident ∨ x.tt = .string := by
+  intro x hx
+  unfold famImg at hx
+  split at hx
+  · rename_i t' heq
+    have htt := minify_tt t t' heq
+    unfold asWritten at hx
+    split at hx
+    · simp only [List.mem_map] at hx
+      obtain ⟨w, _, rfl⟩ := hx
+      exact Or.inr (Or.inl rfl)
+    · simp only [List.mem_singleton] at hx
+      subst hx
+      rw [htt]
+      simp only [famTokOk, Bool.or_eq_true, beq_iff_eq, Bool.and_eq_true] at h
+      rcases h with (h | h) | h
+      · exact Or.inl h
+      · exact Or.inr (Or.inl h)
+      · exact Or.inr (Or.inr h.1)
+  · simp only [List.mem_singleton] at hx
+    subst hx
+    simp only [famTokOk, Bool.or_eq_true, beq_iff_eq, Bool.and_eq_true] at h
+    rcases h with (h | h) | h
+    · exact Or.inl h
+    · exact Or.inr (Or.inl h)
+    · exact Or.inr (Or.inr h.1)
+
+theorem lhFam_noDelim (W : List Tok) (h : ∀ x ∈ W, x.tt = .comma ∨ x.tt = .ident ∨ x.tt = .string) :
+    lhFam W = some (normalTok, W) := by
+  match W, h with
+  | [], _ => rfl
+  | [a], _ => rfl
+  | a :: b :: c, h =>
+    have ha := h a List.mem_cons_self
+    have : Verif.Spec.CssValue.isSlash a = false := by
+      rcases ha with h1 | h1 | h1 <;> simp [Verif.Spec.CssValue.isSlash, h1]
+    simp [lhFam, this]
+
+theorem fontFamilies_nil : fontFamilies [] = none := by decide
+
+/-- the specification's reading of the rewritten value -/
+theorem fontDen_out (pre : List Tok) (size : Tok) (mid fam fam0 : List Tok) (lh : Tok) (fs : List Family) (d : FontDen)
+    (hp : ∀ t ∈ pre, pSlot t = true) (hs : pSlot size = false) (hsz : isFontSize size = true)
+    (hfam : ∀ t ∈ fam, famTokOk t = true) (hm : minifyFontFamily fam = some fam0)
+    (hff : fontFamilies fam = some fs)
+    (hfill : fillPre pre ⟨"normal".toList, "normal".toList, .abs 400, "normal".toList, compNorm size, lh, fs⟩ [] = some d)
+    (hmid : (mid = [] ∧ lh = normalTok) ∨
+      ∃ sl l, mid = [sl, l] ∧ Verif.Spec.CssValue.isSlash sl = true ∧ isLineHeight l = true ∧ lh = compNorm l) :
+    fontDen ((pre.filterMap fontPreTok ++ size :: mid ++ fam0).flatMap asWritten) = some d := by
+  have hp' := filterMap_pSlot pre hp
+  have hW : fam0.flatMap asWritten = fam.flatMap famImg := flatMap_asWritten fam fam0 hm
+  have hWk : ∀ x ∈ fam.flatMap famImg, x.tt = .comma ∨ x.tt = .ident ∨ x.tt = .string := by
+    intro x hx
+    simp only [List.mem_flatMap] at hx
+    obtain ⟨t, ht, hxt⟩ := hx
+    exact famImg_kind t (hfam t ht) x hxt
+  have hWf := families_ok fam fs hfam hff
+  have hWne : (fam.flatMap famImg).isEmpty = false := by
+    cases hW0 : fam.flatMap famImg with
+    | nil => rw [hW0, fontFamilies_nil] at hWf; simp at hWf
+    | cons a b => rfl
+  have hmidS : ∀ t ∈ mid, (t.tt == TT.string) = false := by
+    rcases hmid with ⟨rfl, _⟩ | ⟨sl, l, rfl, h1, h2, _⟩
+    · simp
+    · intro t ht
+      simp only [List.mem_cons, List.mem_nil_iff, or_false] at ht
+      rcases ht with rfl | rfl
+      · simp only [Verif.Spec.CssValue.isSlash, Bool.and_eq_true, beq_iff_eq] at h1
+        rw [h1.1]; rfl
+      · exact isLineHeight_nonString _ h2
+  have e : (pre.filterMap fontPreTok ++ size :: mid ++ fam0).flatMap asWritten =
+      pre.filterMap fontPreTok ++ size :: (mid ++ fam.flatMap famImg) := by
+    simp only [List.flatMap_append, List.flatMap_cons, List.append_assoc, List.cons_append]
+    rw [flatMap_asWritten_id _ (fun t ht => pSlot_nonString t (hp' t ht)), asWritten_nonString size (isFontSize_nonString size hsz),
+      flatMap_asWritten_id mid hmidS, hW]
+    simp
+  rw [e, fontDen_parts _ size _ hp' hs]
+  simp only [hsz, Bool.not_true, Bool.false_eq_true, if_false]
+  have hfill' := fillPre_fontPre pre _ [] [] d (fun _ h => h) (Nat.le_refl _) (fun _ => rfl) hfill
+  rcases hmid with ⟨rfl, rfl⟩ | ⟨sl, l, rfl, h1, h2, rfl⟩
+  · simp only [List.nil_append, lhFam_noDelim _ hWk, hWne, Bool.false_eq_true, if_false, hWf]
+    exact hfill'
+  · simp only [List.cons_append, List.nil_append, lhFam, h1, h2, if_true, hWne, Bool.false_eq_true, if_false, hWf]
+    exact hfill'
+
+theorem minifyFont_noSlash (pre : List Tok) (size : Tok) (fam fam0 : List Tok) (hp : ∀ t ∈ pre, pSlot t = true)
+    (hne : fam ≠ []) (hsplit : fontSplit (pre ++ size :: fam) = pre.length)
+    (hm : minifyFontFamily fam = some fam0) (hq : quoteDash fam0 = fam0) :
+    minifyFont (pre ++ size :: fam) = some (pre.filterMap fontPreTok ++ size :: fam0) := by
+  have hlen : ¬ (pre ++ size :: fam).length ≤ 1 := by
+    cases fam with
+    | nil => exact absurd rfl hne
+    | cons a b => simp; omega
+  have hd : (pre ++ size :: fam).drop (pre.length + 1) = fam := by
+    simp
+  have ht : (pre ++ size :: fam).take (pre.length + 1) = pre ++ [size] := by
+    have := take_len_add pre [size] fam
+    simpa using this
+  unfold minifyFont
+  simp only [hlen, if_false, hsplit]
+  unfold minifyFontAt
+  rw [hd, hm]
+  simp only [hq, ht]
+  by_cases h0 : pre.length = 0
+  · have : pre = [] := List.eq_nil_of_length_eq_zero h0
+    subst this
+    simp
+  · have h0' : (pre.length == 0) = false := by simpa using h0
+    simp only [h0', Bool.false_eq_true, if_false]
+    have hsl : Verif.Model.Css.isSlash ((pre ++ [size]).getD (pre.length - 1) default) = false := by
+      have hlt : pre.length - 1 < pre.length := by omega
+      have : (pre ++ [size]).getD (pre.length - 1) default = pre[pre.length - 1] := by
+        simp [List.getD_eq_getElem?_getD, List.getElem?_append_left hlt, List.getElem?_eq_getElem hlt]
+      rw [this]
+      exact pSlot_noSlash _ (hp _ (List.getElem_mem _))
+    simp only [hsl, Bool.and_false, Bool.false_eq_true, if_false]
+    simp
+
+theorem minifyFont_slash (pre : List Tok) (size sl lh : Tok) (fam fam0 : List Tok)
+    (hsl : Verif.Spec.CssValue.isSlash sl = true)
+    (hsplit : fontSplit (pre ++ size :: sl :: lh :: fam) = pre.length + 2)
+    (hm : minifyFontFamily fam = some fam0) (hq : quoteDash fam0 = fam0) :
+    minifyFont (pre ++ size :: sl :: lh :: fam) =
+      some (pre.filterMap fontPreTok ++ size ::
+        (if identOf lh == Verif.Model.Css.S "normal" then [] else [sl, lh]) ++ fam0) := by
+  have hlen : ¬ (pre ++ size :: sl :: lh :: fam).length ≤ 1 := by simp; omega
+  have hd : (pre ++ size :: sl :: lh :: fam).drop (pre.length + 2 + 1) = fam := by
+    have := drop_len_add pre [size, sl, lh] fam
+    simp only [List.length_cons, List.length_nil, List.append_assoc, List.cons_append, List.nil_append] at this
+    exact this
+  have ht : (pre ++ size :: sl :: lh :: fam).take (pre.length + 2 + 1) = pre ++ [size, sl, lh] := by
+    have := take_len_add pre [size, sl, lh] fam
+    simp only [List.length_cons, List.length_nil, List.append_assoc, List.cons_append, List.nil_append] at this
+    exact this
+  have hms : Verif.Model.Css.isSlash sl = true := by
+    simp only [Verif.Spec.CssValue.isSlash, Bool.and_eq_true, beq_iff_eq] at hsl
+    simp [Verif.Model.Css.isSlash, hsl.1, hsl.2]
+  unfold minifyFont
+  simp only [hlen, if_false, hsplit]
+  unfold minifyFontAt
+  rw [hd, hm]
+  simp only [hq, ht]
+  have g1 : (pre ++ [size, sl, lh]).getD (pre.length + 2 - 1) default = sl := by
+    have : pre.length + 2 - 1 = pre.length + 1 := by omega
+    rw [this, getD_len_add]; rfl
+  have g2 : (pre ++ [size, sl, lh]).getD (pre.length + 2) default = lh := by
+    rw [getD_len_add]; rfl
+  have g3 : (pre ++ [size, sl, lh]).getD (pre.length + 2 - 2) default = size := by
+    have : pre.length + 2 - 2 = pre.length + 0 := by omega
+    rw [this, getD_len_add]; rfl
+  have g4 : (pre ++ [size, sl, lh]).drop (pre.length + 2 - 2) = [size, sl, lh] := by
+    have : pre.length + 2 - 2 = pre.length := by omega
+    rw [this]; simp
+  have g5 : (pre ++ [size, sl, lh]).take (pre.length + 2 - 2) = pre := by
+    have : pre.length + 2 - 2 = pre.length := by omega
+    rw [this]; simp
+  have h0 : (pre.length + 2 == 0) = false := by simp
+  have h1 : decide (1 < pre.length + 2) = true := by simp
+  simp only [h0, Bool.false_eq_true, if_false, h1, g1, hms, Bool.and_self, if_true, g2, g3, g4, g5]
+  split <;> simp
+
+theorem mem_takeWhile_true (p : Tok → Bool) : ∀ (l : List Tok) (t : Tok), t ∈ l.takeWhile p → p t = true
+  | [], t, h => by simp at h
+  | a :: l, t, h => by
+    by_cases ha : p a = true
+    · simp only [List.takeWhile_cons, ha, if_true, List.mem_cons] at h
+      rcases h with rfl | h
+      · exact ha
+      · exact mem_takeWhile_true p l t h
+    · simp [List.takeWhile_cons, ha] at h
+
+theorem dropWhile_head_false (p : Tok → Bool) : ∀ (l : List Tok) (x : Tok) (r : List Tok), l.dropWhile p = x :: r → p x = false
+  | [], x, r, h => by simp at h
+  | a :: l, x, r, h => by
+    by_cases ha : p a = true
+    · simp only [List.dropWhile_cons, ha, if_true] at h
+      exact dropWhile_head_false p l x r h
+    · simp only [List.dropWhile_cons, ha, Bool.false_eq_true, if_false, List.cons.injEq] at h
+      rw [← h.1]; simpa using ha
+
+/-- guards of `font_ok_partial`: the family search of the code stops where the grammar puts the size (or the
+line-height); the family tokens are commas, identifiers and quoted strings without backslash that are no keywords
+(K-C04-6); the IE quoting of a leading `-` does not apply -/
+def fontGuard (vs : List Tok) : Bool :=
+  match vs.dropWhile pSlot with
+  | _ :: rest =>
+    match lhFam rest with
+    | some (_, fam) =>
+      fontSplit vs == (vs.takeWhile pSlot).length + (rest.length - fam.length) &&
+      fam.all famTokOk &&
+      (match minifyFontFamily fam with | some f0 => quoteDash f0 == f0 | none => false)
+    | none => false
+  | [] => false
+
+theorem font_ok_partial (vs : List Tok) (d : FontDen) (hden : fontDen vs = some d) (hg : fontGuard vs = true) :
+    ∃ out, minifyFont vs = some out ∧ fontDen (out.flatMap asWritten) = some d := by
+  have hsplit0 : vs = vs.takeWhile pSlot ++ vs.dropWhile pSlot := (List.takeWhile_append_dropWhile).symm
+  have hp : ∀ t ∈ vs.takeWhile pSlot, pSlot t = true := mem_takeWhile_true pSlot vs
+  generalize hpre : vs.takeWhile pSlot = pre at hsplit0 hp hg
+  cases hr0 : vs.dropWhile pSlot with
+  | nil => simp [fontGuard, hr0] at hg
+  | cons size rest =>
+    have hs : pSlot size = false := dropWhile_head_false pSlot vs size rest hr0
+    rw [hr0] at hsplit0
+    simp only [fontGuard, hr0] at hg
+    rw [hsplit0, fontDen_parts pre size rest hp hs] at hden
+    cases hsz : isFontSize size with
+    | false => simp [hsz] at hden
+    | true =>
+      simp only [hsz, Bool.not_true, Bool.false_eq_true, if_false] at hden
+      cases hlf : lhFam rest with
+      | none => simp [hlf] at hden
+      | some pr =>
+        obtain ⟨lh, fam⟩ := pr
+        simp only [hlf] at hden hg
+        simp only [Bool.and_eq_true, beq_iff_eq, List.all_eq_true] at hg
+        obtain ⟨⟨hsp, hfam⟩, hqd⟩ := hg
+        rw [hpre] at hsp
+        cases hm : minifyFontFamily fam with
+        | none => simp [hm] at hqd
+        | some fam0 =>
+          simp only [hm, beq_iff_eq] at hqd
+          cases hemp : fam.isEmpty with
+          | true => simp [hemp] at hden
+          | false =>
+            simp only [hemp, Bool.false_eq_true, if_false] at hden
+            cases hff : fontFamilies fam with
+            | none => simp [hff] at hden
+            | some fs =>
+              simp only [hff] at hden
+              have hne : fam ≠ [] := by intro e; subst e; simp at hemp
+              -- which shape has the part behind the size?
+              unfold lhFam at hlf
+              split at hlf
+              · rename_i sl l f
+                by_cases hsl : Verif.Spec.CssValue.isSlash sl = true
+                · simp only [hsl, if_true] at hlf
+                  by_cases hl : isLineHeight l = true
+                  · simp only [hl, if_true, Option.some.injEq, Prod.mk.injEq] at hlf
+                    obtain ⟨rfl, rfl⟩ := hlf
+                    have hsp' : fontSplit (pre ++ size :: sl :: l :: f) = pre.length + 2 := by
+                      rw [← hsplit0, hsp]; simp only [List.length_cons]; omega
+                    refine ⟨_, by rw [hsplit0]; exact minifyFont_slash pre size sl l _ fam0 hsl hsp' hm hqd, ?_⟩
+                    by_cases hn : (identOf l == Verif.Model.Css.S "normal") = true
+                    · simp only [hn, if_true, List.append_nil]
+                      have hcn : compNorm l = normalTok := by
+                        obtain ⟨h1, h2⟩ := identOf_eq (by simpa using hn) (by decide)
+                        simp [compNorm, h1, h2, normalTok, Verif.Model.Css.S, Verif.Spec.CssShorthand.S]
+                      rw [hcn] at hden
+                      have := fontDen_out pre size [] _ fam0 normalTok fs d hp hs hsz hfam hm hff hden (Or.inl ⟨rfl, rfl⟩)
+                      simpa using this
+                    · simp only [hn, Bool.false_eq_true, if_false]
+                      have := fontDen_out pre size [sl, l] _ fam0 (compNorm l) fs d hp hs hsz hfam hm hff hden
+                        (Or.inr ⟨sl, l, rfl, hsl, hl, rfl⟩)
+                      simpa using this
+                  · simp [hl] at hlf
+                · simp only [hsl, Bool.false_eq_true, if_false, Option.some.injEq, Prod.mk.injEq] at hlf
+                  obtain ⟨rfl, rfl⟩ := hlf
+                  have hsp' : fontSplit (pre ++ size :: sl :: l :: f) = pre.length := by
+                    rw [← hsplit0, hsp]; simp
+                  refine ⟨_, by rw [hsplit0]; exact minifyFont_noSlash pre size _ fam0 hp hne hsp' hm hqd, ?_⟩
+                  have := fontDen_out pre size [] _ fam0 normalTok fs d hp hs hsz hfam hm hff hden (Or.inl ⟨rfl, rfl⟩)
+                  simpa using this
+              · simp only [Option.some.injEq, Prod.mk.injEq] at hlf
+                obtain ⟨rfl, rfl⟩ := hlf
+                have hsp' : fontSplit (pre ++ size :: rest) = pre.length := by
+                  rw [← hsplit0, hsp]; simp
+                refine ⟨_, by rw [hsplit0]; exact minifyFont_noSlash pre size _ fam0 hp hne hsp' hm hqd, ?_⟩
+                have := fontDen_out pre size [] _ fam0 normalTok fs d hp hs hsz hfam hm hff hden (Or.inl ⟨rfl, rfl⟩)
+                simpa using this
+
+
+end FontWhole
 
 end Verif.Proofs.CssShorthand
